@@ -54,6 +54,8 @@ def judge(ctx, kind, n, m, res, rp):
                 check(ctx, f"pc_n(np.array({nz}, dtype={dt.__name__}))", lambda: prs.pc_n(np.array(nz, dtype=dt)), res["pc"], f"pc_n/{dt.__name__}", rp)
         x = sample_with_counts(n, ctx.rng)
         check(ctx, f"pc(sample with counts {n})", lambda: prs.pc(x), res["pc"], "pc", rp)
+        xi = np.repeat(np.arange(len(n)) + 3, n)
+        check(ctx, f"pc(int sample with counts {n})", lambda: prs.pc(xi), res["pc"], "pc/int", rp)
     if kind == "var":
         check(ctx, f"varpc_n(np.array({n}))", lambda: prs.varpc_n(np.array(n)), res["var"], "varpc_n", rp)
         own = np.array(n, dtype=float)
@@ -77,6 +79,12 @@ def judge(ctx, kind, n, m, res, rp):
         ctx.rng.shuffle(y)
         check(ctx, f"pc(sample {n}, sample {m})", lambda: prs.pc(x, y), res["pc"], "pc/two", rp)
         check(ctx, f"pc(np.array sample {m}, np.array sample {n})", lambda: prs.pc(np.array(y), np.array(x)), res["pc"], "pc/two/ndarray", rp)
+        # integer-coded categories (the smallest code present differs between the samples whenever one of them misses category 0)
+        xi = np.repeat(np.arange(len(n)) + 3, n)
+        yi = np.repeat(np.arange(len(m)) + 3, m)
+        ctx.rng.shuffle(xi)
+        check(ctx, f"pc(int sample {n}, int sample {m})", lambda: prs.pc(xi, yi), res["pc"], "pc/two/int", rp)
+        check(ctx, f"pc(int list {m}, int list {n})", lambda: prs.pc([int(v) for v in yi], [int(v) * 1 for v in xi]), res["pc"], "pc/two/intlist", rp)
 
 
 def judge_big(ctx, s, res):
